@@ -281,44 +281,3 @@ Proof.
   unfold float_export. cbn [py_float bind]. rewrite Hc, Hv.
   repeat split; [|discriminate]. constructor. apply feq_same_number; auto. congruence.
 Qed.
-
-(* ------------------------------------------------------------------ the round trip with the int and double leaves discharged *)
-Local Close Scope R_scope.
-
-(* what the constructors guarantee of the numeric leaf types (limits and resolution are finite floats, int limits are
-   within +-UNLIMITED = 2^64); for scaled leaves the arithmetic fact itself remains the hypothesis *)
-Definition leaf_ok (E : pyenv) (C : codec) (d : dtype) : Prop :=
-  match d with
-  | TFloat mn mx _ r => fis_finite mn = true /\ fis_finite mx = true /\ fis_finite r = true
-  | TInt mn mx => (- 2 ^ 64 <= mn)%Z /\ (mx <= 2 ^ 64)%Z
-  | TScaled _ _ _ => num_rt E C d
-  | _ => True
-  end.
-
-Lemma leaf_ok_num_rt E C d : leaf_ok E C d ->
-  match d with TFloat _ _ _ _ | TInt _ _ | TScaled _ _ _ => num_rt E C d | _ => True end.
-Proof.
-  destruct d; cbn [leaf_ok]; auto.
-  - intros (H1 & H2 & H3). apply rt_float; assumption.
-  - intros (H1 & H2). apply rt_int; assumption.
-Qed.
-
-Lemma num_leaves_discharge E C : forall d, num_leaves (leaf_ok E C) d -> num_leaves (num_rt E C) d.
-Proof.
-  induction d as [a b c d|a b|a b c| |ms|a b u|a b|e a b IHe|es IHes|ms o c IHms] using dtype_ind'; intros H;
-    try exact I; try (exact (leaf_ok_num_rt E C _ H)).
-  - apply IHe, H.
-  - apply num_leaves_tuple. apply num_leaves_tuple in H.
-    induction es as [|x es IH]; constructor; inversion IHes; inversion H; subst; auto.
-  - apply num_leaves_struct. apply num_leaves_struct in H.
-    induction ms as [|x ms IH]; constructor; inversion IHms; inversion H; subst; auto.
-Qed.
-
-Theorem wire_roundtrip_except_scaled E C : b64_law E C ->
-  forall d, num_leaves (leaf_ok E C) d -> forall v, valid d v = true -> rt E C d v.
-Proof. intros HB d HL. apply wire_roundtrip; [exact HB|apply num_leaves_discharge, HL]. Qed.
-
-Theorem setparam_roundtrip_except_scaled C E d t w :
-  b64_law E C -> num_leaves (leaf_ok E C) d -> from_string C d t = Ok w -> valid d w = true ->
-  exists v', set_from_string C E d d t = Ok v' /\ py_eq w v'.
-Proof. intros HB HL. apply setparam_roundtrip; [exact HB|apply num_leaves_discharge, HL]. Qed.
